@@ -66,7 +66,11 @@ def correspond(ctx, C):
         if not sw["spec"]:
             schema_invalid += 1
         accepted = [x for x in go.get("runs", []) if x.get("valid")]
-        if accepted and not sw["spec"]:
+        if accepted and not sw["spec"] and not sw["impl"]["valid"]:
+            # accepted although the model of the schema pass (code as it is) rejects: nothing listed explains that
+            viol.append((r["case"], {"what": "spec validation reports no error but the raw document violates the Swagger 2.0 schema, and the model of the schema pass rejects it too",
+                                     "accepted_in_mode_continue": [x["cont"] for x in accepted]}))
+        elif accepted and not sw["spec"]:
             sws = [s for s in sw["explain"] if s in known]
             if not sws and not sw["explain"] and sw["repValid"] == sw["spec"] and set(sw["active"]) <= set(known):
                 sws = ["(several known switches together)"]
